@@ -623,6 +623,9 @@ class Converter:
         """Translation of an expression where "None" is permitted (eg., for an optional argument).
         None is represented as a Constant in Python 3.9+.
         """
+        if node is None:
+            # Placeholder for an omitted optional input that precedes an input passed by keyword.
+            return None
         if isinstance(node, ast.Constant) and (node.value is None):
             return None
         return self._translate_expr(node)
